@@ -76,6 +76,7 @@ Definition field_strict (C : cfg) (S : schema) (nested : bool) (tn : string) (f 
            (negb (fn_cond f) || negb (is_nonnull t)) &&
            match lookup_type S (base_name t) with
            | Some DScalar => configured C (base_name t)
+           | Some (DInterface _ _) | Some (DUnion _) => false   (* abstract positions: not covered here *)
            | _ => true
            end
        | Err _ => false
@@ -201,7 +202,7 @@ Section LevelS.
   Hypothesis W_class_obj : forall c j, W (AClass c) j = true -> exists kv, j = JObj kv.
   Hypothesis W_class : forall pub cn2 tn2 sels2 out2 pub2 kv,
       parse_type_def fuel' C S frs pub cn2 tn2 sels2 false [] (Some [tn2]) = Ok (out2, pub2, false) ->
-      sels_ok g true C S frs true tn2 sels2 = true -> sels_strict gs C S frs true tn2 sels2 = true ->
+      sels_ok g true C S frs true tn2 tn2 sels2 = true -> sels_strict gs C S frs true tn2 sels2 = true ->
       table_ok cs out2 -> W (AClass cn2) (JObj kv) = true ->
       ev (fun fc => obj_lconf fc S frs tn2 sels2 kv).
 
@@ -217,7 +218,7 @@ Section LevelS.
     end.
 
   Lemma field_value_rev cn tn tv nested f pf ctx pub0 exc pub1 v :
-    field_ok (sels_ok g true C S frs true) S nested tn f = true ->
+    field_ok (sels_ok g true C S frs true) g true S nested tn tn f = true ->
     field_strict C S nested tn f = true -> sub_strict tn f = true ->
     tv = (if nested then Some [tn] else None) ->
     field_pf C S frs fuel' cn tn tv f = Ok (pf, ctx) ->
@@ -234,7 +235,8 @@ Section LevelS.
     - subst nested tv. unfold field_ann_lit in Ha. rewrite Etn in Ha. simpl in Ha. inversion Ha; subst.
       unfold cond_ann in Hw. apply W_lit, Hw.
     - assert (Hne : fn_name f <> "__typename") by (apply String.eqb_neq, Etn).
-      rewrite Ht in Hok, Hst. apply andb_true_iff in Hok as [Hwf Hok]. apply andb_true_iff in Hst as [Hcn Hcfg].
+      rewrite Ht in Hok, Hst. apply andb_true_iff in Hok as [Hwf Hok]. apply andb_true_iff in Hwf as [Hwf _].
+      apply andb_true_iff in Hst as [Hcn Hcfg].
       exists t. split; [apply field_type_on_schema; auto|].
       set (sc := cn +++ pascal_s (py_field_name C (field_key f))) in *.
       assert (Ha' : exists r, field_type_ann C S frs fuel' (fn_sub f) t true sc false = Ok r /\
@@ -252,7 +254,7 @@ Section LevelS.
       assert (Hnull : forall x, leaf_ann C S frs fuel' (fn_sub f) sc (base_name t) = Some x -> W x JNull = false).
       { intros x Hleaf. unfold leaf_ann, named_ann in Hleaf.
         destruct (lookup_type S (base_name t)) as [[| vs | ifs fs | ifs fs | ms |]|] eqn:El;
-          destruct (fn_sub f) as [sub|] eqn:Esub; try discriminate Hok.
+          destruct (fn_sub f) as [sub|] eqn:Esub; try discriminate Hok; try discriminate Hcfg.
         - destruct (scalar_ann C (base_name t) false) as [sa sctx] eqn:Esc. inversion Hleaf; subst x.
           replace sa with (fst (scalar_ann C (base_name t) false)) by (rewrite Esc; reflexivity).
           apply W_scalar_null, Hcfg.
@@ -266,7 +268,7 @@ Section LevelS.
       intros j' [Hnn [x [Hleaf Hwx]]]. split; [exact Hnn|].
       unfold leaf_ann in Hleaf. unfold named_ann in Hleaf, Hctx. unfold lconf.
       destruct (lookup_type S (base_name t)) as [[| vs | ifs fs | ifs fs | ms |]|] eqn:El;
-        destruct (fn_sub f) as [sub|] eqn:Esub; try discriminate Hok.
+        destruct (fn_sub f) as [sub|] eqn:Esub; try discriminate Hok; try discriminate Hcfg.
       + (* scalar *)
         destruct (scalar_ann C (base_name t) false) as [sa sctx] eqn:Esc. inversion Hleaf; subst x.
         replace sa with (fst (scalar_ann C (base_name t) false)) in Hwx by (rewrite Esc; reflexivity).
@@ -304,7 +306,7 @@ Section LevelS.
 
   Lemma level_facts_rev cn tn tv nested fns pub pfl extra pub' :
     fields_run (parse_type_def fuel' C S frs) C S frs fuel' cn tn tv fns pub pfl extra pub' false ->
-    forallb (field_ok (sels_ok g true C S frs true) S nested tn) fns = true ->
+    forallb (field_ok (sels_ok g true C S frs true) g true S nested tn tn) fns = true ->
     forallb (fun f => field_strict C S nested tn f && sub_strict tn f) fns = true ->
     tv = (if nested then Some [tn] else None) -> table_ok cs extra ->
     Forall2 (field_facts_rev tn) fns pfl.
@@ -390,7 +392,7 @@ Qed.
 
 Theorem obj_strict C S frs : forall fuel g gs nested pub cn tn sels tv out pub' cs kv n,
   parse_type_def fuel C S frs pub cn tn sels false [] tv = Ok (out, pub', false) ->
-  sels_ok g true C S frs nested tn sels = true -> sels_strict gs C S frs nested tn sels = true ->
+  sels_ok g true C S frs nested tn tn sels = true -> sels_strict gs C S frs nested tn sels = true ->
   tv = (if nested then Some [tn] else None) -> table_ok cs out ->
   accepts n cs (schema_enums S) (AClass cn) (JObj kv) = true ->
   covers n cs (AClass cn) (JObj kv) = true ->
@@ -398,8 +400,8 @@ Theorem obj_strict C S frs : forall fuel g gs nested pub cn tn sels tv out pub' 
 Proof.
   induction fuel as [|fuel IH]; intros g gs nested pub cn tn sels tv out pub' cs kv n Hp Hok Hst Htv Htab Hacc Hcov;
     [discriminate Hp|].
-  destruct (level_inv _ _ _ _ _ _ _ _ _ _ _ _ _ _ Hp Hok) as [f2 [g' [fns [pfl [extra [Ef [Eg [Hfl [Hrun Hout]]]]]]]]].
-  destruct (sels_ok_inv _ _ _ _ _ _ _ _ Hok) as [g'' [fns' [Eg' [Hfl' [Hkeys [Hnames Hfields]]]]]].
+  destruct (level_inv _ _ _ _ _ _ _ _ _ _ _ _ _ _ _ _ Hp Hok ltac:(discriminate)) as [f2 [g' [fns [pfl [extra [Ef [Eg [Hfl [Hrun Hout]]]]]]]]].
+  destruct (sels_ok_inv _ _ _ _ _ _ _ _ _ Hok) as [g'' [fns' [Eg' [Hfl' [Hkeys [Hnames Hfields]]]]]].
   rewrite Eg in Eg'. inversion Eg'; subst g''. clear Eg'. specialize (Hnames eq_refl).
   rewrite Hfl in Hfl'. inversion Hfl'; subst fns'. clear Hfl'.
   destruct gs as [|gs']; [discriminate Hst|]. cbn [sels_strict] in Hst.
@@ -438,7 +440,7 @@ Proof.
     destruct (level_strict C S frs tn Wa Wc kv _ _ HF Hkeys Hnames Hacc Hcov) as [Hkv Hspec].
     pose proof (ev_forallb (fun fc f => key_spec (lconf fc S frs) S tn kv f) _ Hspec) as [a Ha].
     exists (max a g'). intros fc Hk.
-    unfold obj_lconf. rewrite (collect_scopes_flat_ex _ _ _ _ _ _ _ Hfl) by lia.
+    unfold obj_lconf. rewrite (collect_scopes_flat_ex _ _ _ _ _ _ _ _ Hfl) by lia.
     rewrite conf_obj_flat by (eapply keys_ok_nodup; eauto).
     simpl orb. apply andb_true_iff. split.
     + apply forallb_forall. intros p Hp'. apply mem_In, Hkv, Hp'.
